@@ -283,10 +283,32 @@ func c06Drivers(thorough bool) []*engine.HDriver {
 	}}}
 }
 
+// c06Scenarios: "removing an entity removes that entity's subscriptions, bindings and cached
+// references and nothing else" while another peer's registry messages are processed concurrently
+// (each peer's connection delivers from its own goroutine): the outcome must be that of some
+// sequential order of the messages (see conc.go).
+func c06Scenarios(thorough bool) []*engine.SScenario {
+	pre := teardownPrelude
+	scs := []*engine.SScenario{
+		linScenario(pre, [][]string{{"entrm:A:1"}, {"sub:B:e2f1:L1lc:lc:d"}}, []string{"set:L1lc:2", "set:L2lc:2"}),
+		linScenario(pre, [][]string{{"entrm:A:1"}, {"unsub:B:e1f1:L1lc:d"}}, []string{"set:L1lc:2", "set:L2lc:2"}),
+		linScenario(pre, [][]string{{"entrm:A:1"}, {"unbind:B:e1f1:L2lc:d", "bind:B:e1f2:L2lc:lc:d"}}, []string{"write:B:e1f1:L2lc:limit:ack:2", "write:B:e1f2:L2lc:limit:ack:2"}),
+		linScenario(pre, [][]string{{"entrm:A:1"}, {"entrm:B:1"}}, []string{"set:L1lc:2", "set:L2lc:2"}),
+	}
+	if thorough {
+		scs = append(scs,
+			linScenario(pre, [][]string{{"entrm:A:1", "entrm:A:2"}, {"sub:B:e2f1:L1lc:lc:d", "unsub:B:e1f1:L1lc:d"}}, []string{"set:L1lc:2", "set:L2lc:2"}),
+			linScenario(pre, [][]string{{"entrm:A:2"}, {"sub:A:e1f2:L2lc:lc:d"}, {"sub:B:e2f1:L2lc:lc:d"}}, []string{"set:L1lc:2", "set:L2lc:2"}))
+	}
+	return scs
+}
+
 func init() {
 	engine.Register(&engine.Check{
-		ID:      "C06",
-		Drivers: func(c *engine.Ctx) []*engine.HDriver { return c06Drivers(c.Thorough) },
+		ID:        "C06",
+		NeedsRace: true,
+		Drivers:   func(c *engine.Ctx) []*engine.HDriver { return c06Drivers(c.Thorough) },
+		Scenarios: func(c *engine.Ctx) []*engine.SScenario { return c06Scenarios(c.Thorough) },
 		Run: func(c *engine.Ctx) *engine.Report {
 			rep := &engine.Report{Level: "model_checking", Coverage: map[string]any{"exhaustive": true}}
 			for _, d := range c06Drivers(c.Thorough) {
@@ -299,6 +321,7 @@ func init() {
 				rep.Coverage["closure_reached"] = st.Closure
 				rep.Coverage["max_depth"] = st.MaxDepth
 			}
+			mergeS(c, rep, c06Scenarios(c.Thorough), engine.SPlan{Bounds: boundsFor(c, []int{0, 1, 2}, []int{0, 1, 2, 3}), Race: true, RaceMaxBound: 1, RaceFuncs: []string{"SubscriptionManager", "BindingManager", "DeviceRemote", "EntityRemote"}})
 			rep.Assumptions = []string{"every history starts after subscriptions and bindings of A[1], A[2], B[1] and local client subscriptions/bindings towards A and B; entity types per address are fixed; what a second discovery reply does is not judged"}
 			return rep
 		},
